@@ -143,9 +143,10 @@ class Interp:
             return all(self.match_pat(s, a, env) for s, a in zip(p["subs"], v))
         if k == "Or":
             for a in p["alts"]:
-                e2 = _child(env)
-                if self.match_pat(a, v, e2):
-                    env.update(e2)
+                b = {}
+                if self.match_pat(a, v, b):
+                    for k_, v_ in b.items():
+                        dict.__setitem__(env, k_, v_)
                     return True
             return False
         if k == "PStruct":
@@ -254,6 +255,13 @@ class Interp:
                 raise Undecided("binary %s" % op)
         if k == "Tup":
             return tuple(self.ev(e, env) for e in n["es"])
+        if k == "Index":
+            base, i = self.ev(n["e"], env), self.ev(n["i"], env)
+            if isinstance(base, (list, str)) and isinstance(i, int) and not isinstance(i, bool):
+                if 0 <= i < len(base):
+                    return base[i]
+                raise Undecided("index %d out of bounds (a panic in the analysed code)" % i)
+            raise Undecided("index into %r" % (base,))
         if k == "Field":
             base = self.ev(n["e"], env)
             if isinstance(base, dict):
@@ -282,12 +290,15 @@ class Interp:
         if k == "Match":
             v = self.ev(n["scrut"], env)
             for a in n["arms"]:
-                e2 = _child(env)
-                if self.match_pat(a["pat"], v, e2):
-                    if a.get("guard") is not None and not self.cond(a["guard"], e2):
+                b = {}
+                if self.match_pat(a["pat"], v, b):
+                    # local ids are unique within a function, so one flat environment serves all scopes; assignments made
+                    # inside the arm stay visible after it
+                    for k_, v_ in b.items():
+                        dict.__setitem__(env, k_, v_)
+                    if a.get("guard") is not None and not self.cond(a["guard"], env):
                         continue
-                    env.update({k_: v_ for k_, v_ in e2.items() if k_ not in env})
-                    return self.ev(a["body"], e2)
+                    return self.ev(a["body"], env)
             raise Undecided("no arm of `%s` matches %r" % (render(n), v))
         if k == "Closure":
             return Closure(n, env)
@@ -360,7 +371,7 @@ class Interp:
     def apply(self, f, args):
         if not isinstance(f, Closure):
             raise Undecided("call of a non-closure value %r" % (f,))
-        env = _child(f.env)
+        env = f.env
         params = f.node.get("params", [])
         if len(params) != len(args):
             raise Undecided("closure arity")
@@ -415,6 +426,32 @@ class Interp:
             if isinstance(recv, Opaque) or isinstance(b, Opaque):
                 raise Undecided("eq on opaque")
             return (recv == b) == (m == "eq")
+        if isinstance(recv, set) and len(n["args"]) == 1 and m in ("contains", "insert", "remove"):
+            a = self.ev(n["args"][0], env)
+            if isinstance(a, (int, str, tuple)):
+                if m == "contains":
+                    return a in recv
+                if m == "insert":
+                    new_ = a not in recv
+                    recv.add(a)
+                    return new_
+                had = a in recv
+                recv.discard(a)
+                return had
+        if isinstance(recv, V) and recv.name in ("Option::Some", "Option::None", "Result::Ok", "Result::Err"):
+            present = recv.name in ("Option::Some", "Result::Ok")
+            if m in ("unwrap_or",) and len(n["args"]) == 1:
+                return recv.args[0] if present else self.ev(n["args"][0], env)
+            if m in ("unwrap_or_else",) and len(n["args"]) == 1:
+                return recv.args[0] if present else self.apply(self.ev(n["args"][0], env), [] if recv.name == "Option::None" else [recv.args[0]])
+            if m == "or" and len(n["args"]) == 1 and recv.name.startswith("Option"):
+                return recv if present else self.ev(n["args"][0], env)
+            if m == "or_else" and len(n["args"]) == 1 and recv.name.startswith("Option"):
+                return recv if present else self.apply(self.ev(n["args"][0], env), [])
+            if m == "ok" and not n["args"] and recv.name.startswith("Result"):
+                return some(recv.args[0]) if present else NONE
+            if m == "unwrap_or_default" and not n["args"] and present:
+                return recv.args[0]
         if m in ("map", "and_then", "filter", "is_some_and", "map_or") and isinstance(recv, V) and recv.name in ("Option::Some", "Option::None"):
             if m == "map_or":
                 d = self.ev(n["args"][0], env)
@@ -430,6 +467,53 @@ class Interp:
             if m == "is_some_and":
                 return self._bool(r, n)
             return recv if self._bool(r, n) else NONE
+        if isinstance(recv, (list, ListIter)) and len(n["args"]) == 1 and m in ("any", "all", "map", "filter", "for_each", "find", "position", "filter_map", "take_while", "skip_while"):
+            items = recv if isinstance(recv, list) else recv.items[recv.pos:]
+            f = self.ev(n["args"][0], env)
+            if isinstance(f, Closure):
+                if m == "any":
+                    for x in items:
+                        if self._bool(self.apply(f, [x]), n):
+                            return True
+                    return False
+                if m == "all":
+                    for x in items:
+                        if not self._bool(self.apply(f, [x]), n):
+                            return False
+                    return True
+                if m == "map":
+                    return [self.apply(f, [x]) for x in items]
+                if m == "filter":
+                    return [x for x in items if self._bool(self.apply(f, [x]), n)]
+                if m == "filter_map":
+                    out = []
+                    for x in items:
+                        r = self.apply(f, [x])
+                        if isinstance(r, V) and r.name == "Option::Some":
+                            out.append(r.args[0])
+                        elif r != NONE:
+                            raise Undecided("filter_map closure result %r" % (r,))
+                    return out
+                if m == "for_each":
+                    for x in items:
+                        self.apply(f, [x])
+                    return ()
+                if m == "find":
+                    for x in items:
+                        if self._bool(self.apply(f, [x]), n):
+                            return some(x)
+                    return NONE
+                if m == "position":
+                    for i, x in enumerate(items):
+                        if self._bool(self.apply(f, [x]), n):
+                            return some(i)
+                    return NONE
+        if isinstance(recv, list) and m == "get" and len(n["args"]) == 1:
+            i = self.ev(n["args"][0], env)
+            if isinstance(i, int):
+                return some(recv[i]) if 0 <= i < len(recv) else NONE
+        if isinstance(recv, list) and not n["args"] and m in ("first", "last"):
+            return (some(recv[0] if m == "first" else recv[-1])) if recv else NONE
         if isinstance(recv, (list, ListIter)) and not n["args"]:
             items = recv if isinstance(recv, list) else recv.items[recv.pos:]
             if m in ("iter", "into_iter", "iter_mut", "by_ref", "cloned", "copied"):
@@ -533,7 +617,7 @@ class Interp:
             return V(vname(n["callee"]), [self.ev(a, env) for a in n["args"]])
         if short(n.get("callee", ""), 2) in ("String::new", "String::with_capacity"):
             return ""
-        if len(n["args"]) == 1 and (str(n.get("callee", "")).endswith("From<&str>>::from") or short(n.get("callee", ""), 2) in ("String::from", "From::from", "ToOwned::to_owned", "ToString::to_string")):
+        if len(n["args"]) == 1 and (str(n.get("callee", "")).endswith("From<&str>>::from") or short(n.get("callee", ""), 2) in ("String::from", "From::from", "ToOwned::to_owned", "ToString::to_string", "PathBuf::from")):
             a = self.ev(n["args"][0], env)
             if isinstance(a, str):
                 return a
